@@ -58,6 +58,8 @@ def make_problem(cfg):
     if cfg.get("clock"):
         eq_params.update(nan_from=jnp.asarray(float(cfg.get("nan_from", 1e9))), clock=jnp.asarray(0.0))
     eq_params["a"] = jnp.asarray(0.7)  # non-alphabetical insertion order
+    if cfg.get("inf_param"):
+        eq_params["cap"] = jnp.asarray(jnp.inf)  # valid, unused by the equation: only NaN may stop training
     hidden = cfg.get("hidden", 3)
     with warnings.catch_warnings():
         warnings.simplefilter("ignore")
